@@ -565,9 +565,20 @@ TEXTLIKE = {"text", "textrm", "textit", "textbf", "textmd", "textsc", "textsf", 
 MATHENVS = {"equation", "equation*", "eqnarray", "eqnarray*", "align", "align*", "gather", "gather*", "flalign", "flalign*",
             "multline", "multline*", "alignat", "alignat*", "split"}
 
-def check(doc):
+def state_changing_context():
+    """the default context plus a macro whose call changes the parsing state from then on (an after-call delta)"""
+    from pylatexenc.macrospec import MacroSpec
+    from pylatexenc.latexnodes import ParsingStateDelta
+    db = get_default_latex_context_db()
+    db.add_context_category("c10", prepend=True, macros=[MacroSpec(
+        "nocomments", make_after_parsing_state_delta=lambda parsed_node, latex_walker: ParsingStateDelta(
+            set_attributes=dict(enable_comments=False)))])
+    return db
+
+def check(doc, db=None):
     try:
-        nl, _ = LatexWalker(doc, tolerant_parsing=False).parse_content(LatexGeneralNodesParser())
+        kw = {} if db is None else {"latex_context": db}
+        nl, _ = LatexWalker(doc, tolerant_parsing=False, **kw).parse_content(LatexGeneralNodesParser())
     except Exception as e:
         return None      # not a well-formed document
     out = []
@@ -595,6 +606,12 @@ def search():
     if m: return m
     for d in DOCS:
         m = check(d)
+        if m: return m
+    # a state change made inside a formula / group / environment does not carry the inner mode outside
+    db = state_changing_context()
+    for d in [r"$a \nocomments b$ c $d$", r"\(a \nocomments\) c", r"$$\nocomments$$ c", r"{\nocomments $a$} $b$ c",
+              r"\begin{equation}\nocomments a\end{equation} c", r"\nocomments $a$ b", r"$\text{\nocomments a} b$ c"]:
+        m = check(d, db)
         if m: return m
     for s in strings(["$", "a", "{", "}", " ", r"\(", r"\)", r"\[", r"\]"], 5):
         m = check(s)
